@@ -123,7 +123,7 @@ FirstToken(l) == LET s == SkipIn(l.text, 1, SpTab)  e == FindIn(l.text, s, SpTab
 ExecText(cmd, text, now, cfg) ==
     LET PP == ParseDoc(text)
         R == DocData(PP)
-        m == IF PP.status = "Conforming" THEN Model(cmd, R, now, cfg) ELSE [st |-> IF PP.ok THEN "unspec" ELSE "fail"]
+        m == IF JudgedLikeConforming(PP, text) THEN Model(cmd, R, now, cfg) ELSE [st |-> IF PP.ok THEN "unspec" ELSE "fail"]
         done(rc) == LET out == JoinLines(rc.lines) IN
                     IF ParseDoc(out).ok THEN [st |-> "ok", text |-> out] ELSE [st |-> "fail", text |-> text]
     IN
